@@ -191,7 +191,9 @@ fn rewrites(spec: &CmdSpec, argv: &[Vec<u8>]) -> Vec<(String, Vec<Vec<u8>>)> {
         }
     }
     // explicit `--` before a trailing run of plain positionals
-    if lv.sub.is_none() && lv.escape_at.is_none() {
+    // (with allow_missing_positional the `--` is documented to be meaningful: it sends what follows
+    // to the last positional, so it is not an equivalent spelling there)
+    if lv.sub.is_none() && lv.escape_at.is_none() && !spec.has(Setting::AllowMissingPositional) {
         let pos_at: Vec<usize> = lv.occs.iter().filter(|o| o.how == How::Pos).map(|o| o.at).collect();
         if let Some(first) = pos_at.iter().min() {
             let all_after = (*first..argv.len()).all(|k| !flag_shaped(&argv[k]) && argv[k] != b"--")
@@ -284,7 +286,10 @@ fn ambiguity_specs() -> Vec<(String, CmdSpec)> {
     lvl.aliases.push("verbosity".into());
     c.args.push(lvl);
     c.args.push(ArgSpec::flag("ver", None, Some("ver")));
-    c.subs.push(CmdSpec::new("test"));
+    let mut test = CmdSpec::new("test");
+    test.aliases.push("check".into()); // hidden alias sharing a prefix with the sibling `chess`
+    c.subs.push(test);
+    c.subs.push(CmdSpec::new("chess"));
     c.subs.push(CmdSpec::new("temp"));
     let mut te = CmdSpec::new("te");
     te.aliases.push("tes".into());
@@ -481,10 +486,15 @@ fn main() {
             }
         }
     }
+    for c in conv::hyphen_configs() {
+        if c.name.starts_with("posorder:") {
+            blocks.push((c, tier.pick(4usize, 5usize)));
+        }
+    }
     par_blocks(blocks.len(), |bi, _| {
         let (cv, l) = &blocks[bi];
         let Ok(cmd) = build_valid(&cv.spec) else { return };
-        let alpha = conv::alphabet(&cv.spec);
+        let alpha = if cv.name.starts_with("posorder:") { conv::hyphen_alphabet() } else { conv::alphabet(&cv.spec) };
         let mut h = Hist::new();
         let mut argv: Vec<Vec<u8>> = vec![];
         let mut idx = 0u64;
